@@ -50,6 +50,22 @@ def gen_requests(ctx):
                 lays = [("C" if allc else rng.choice(LAYOUTS)) if isinstance(a, dict) and "arr" in a else "C" for a in args]
                 kl = {k2: ("C" if allc else rng.choice(LAYOUTS)) for k2, v in kwargs.items() if isinstance(v, dict) and "arr" in v}
                 reqs.append({"id": "%s#%d" % (e.name, k), "fn": e.name, "args": args, "kwargs": kwargs, "layouts": lays, "klayouts": kl})
+        # every layout of the first array argument of every function, once (the random choice above leaves gaps: a kernel that
+        # computes addresses from strides must be seen with negative, padded and Fortran strides)
+        for e in R.REG:
+            try:
+                args, kwargs = e.gen(rng)
+            except Exception:
+                continue
+            first = next((i for i, a in enumerate(args) if isinstance(a, dict) and "arr" in a), None)
+            if first is None or first in getattr(e, "nolayout", ()):
+                continue
+            for lay in LAYOUTS[1:]:
+                if lay == "readonly" and first in getattr(e, "inplace_args", ()):
+                    continue
+                lays = ["C"] * len(args)
+                lays[first] = lay
+                reqs.append({"id": "%s@%s" % (e.name, lay), "fn": e.name, "args": args, "kwargs": kwargs, "layouts": lays, "klayouts": {}})
     finally:
         R.rshape = old
     # neighbourhoods much larger than the image, on the contiguity-gated 2-D boolean fast path and on the generic path
